@@ -987,6 +987,27 @@ class NPProxy(types.ModuleType):
                 isinstance(a, np.ndarray) or isinstance(b, np.ndarray)) else (abs(a - b) <= atol + rtol * abs(b))
         return np.isclose(a, b, rtol=rtol, atol=atol, **k)
 
+    def allclose(self, a, b, rtol=1e-5, atol=1e-8, equal_nan=False):
+        if _has_sym(a) or _has_sym(b):
+            aa = list(np.broadcast_arrays(np.asarray(a, dtype=object), np.asarray(b, dtype=object))[0].flat)
+            bb = list(np.broadcast_arrays(np.asarray(a, dtype=object), np.asarray(b, dtype=object))[1].flat)
+            isn = lambda v: (not _is_sym(v)) and isinstance(v, (float, np.floating)) and math.isnan(v)
+            isi = lambda v: (not _is_sym(v)) and isinstance(v, (float, np.floating)) and math.isinf(v)
+            for u, v in zip(aa, bb):
+                if isn(u) or isn(v):
+                    if not (equal_nan and isn(u) and isn(v)):
+                        return False
+                    continue
+                if isi(u) or isi(v):
+                    # numpy: infinities are close only to the same infinity
+                    if not (isi(u) and isi(v) and float(u) == float(v)):
+                        return False
+                    continue
+                if not bool(abs(u - v) <= atol + rtol * abs(v)):
+                    return False
+            return True
+        return np.allclose(a, b, rtol=rtol, atol=atol, equal_nan=equal_nan)
+
     def where(self, c, *ab):
         if not ab:
             return np.where(c)
@@ -996,7 +1017,9 @@ class NPProxy(types.ModuleType):
         return np.where(c, a, b)
 
     def clip(self, x, lo, hi, **k):
-        if _has_sym(x) or _has_sym(lo) or _has_sym(hi):
+        # numpy clips OBJECT arrays with Python comparisons, which turn NaN into a bound; float arrays keep NaN: object arrays of plain
+        # numbers (kept as objects during symbolic runs) go through the element-wise rule as well
+        if _has_sym(x) or _has_sym(lo) or _has_sym(hi) or any(isinstance(v, np.ndarray) and v.dtype == object for v in (x, lo, hi)):
             def cl(v, l, h):
                 if not _is_sym(v) and isinstance(v, (float, np.floating)) and math.isnan(v):
                     return v
@@ -1153,6 +1176,34 @@ class NPProxy(types.ModuleType):
                 return _wrap(np.array([row[0] if len(row) == 1 else (row[0] + row[1]) / 2 for row in x], dtype=object))
             raise Unsupported('nanmedian of more than two symbolic columns')
         return np.nanmedian(x, *a, **k)
+
+    def interp(self, x, xp, fp, *a, **k):
+        """piecewise-linear interpolation of a symbolic scalar in concrete tables (clamped at both ends, as numpy does): the interval is
+        found by bisection, every comparison is a fork"""
+        if isinstance(x, np.ndarray) and x.dtype == object and x.ndim == 0:
+            x = x.item()
+        if _is_sym(x) and not _has_sym(xp) and not _has_sym(fp) and not a and not k:
+            if isinstance(x, Dual):
+                raise Unsupported('interp of a dual number')
+            xp, fp = [float(v) for v in np.asarray(xp).flat], [float(v) for v in np.asarray(fp).flat]
+            if len(xp) != len(fp) or not xp or any(b <= a_ for a_, b in zip(xp, xp[1:])):
+                raise Unsupported('interp tables must be strictly increasing and of equal length')
+            if x <= xp[0]:
+                return fp[0]
+            if x >= xp[-1]:
+                return fp[-1]
+            lo, hi = 0, len(xp) - 1
+            while hi - lo > 1:
+                mid = (lo + hi) // 2
+                if x < xp[mid]:
+                    hi = mid
+                else:
+                    lo = mid
+            w = (x - xp[lo]) / Fraction(xp[hi] - xp[lo]) if False else (x - xp[lo]) * (1 / (Fraction(xp[hi]) - Fraction(xp[lo])))
+            return Fraction(fp[lo]) + w * (Fraction(fp[hi]) - Fraction(fp[lo]))
+        if _has_sym(x) or _has_sym(xp) or _has_sym(fp):
+            raise Unsupported('interp with symbolic tables / array argument')
+        return np.interp(x, xp, fp, *a, **k)
 
     def nanmean(self, x, *a, **k):
         if _has_sym(x):
@@ -1358,6 +1409,9 @@ def explore(body, ex=None, max_paths=2000, deadline=None):
                 stack.append((path.dec[:i] + [not path.dec[i]], None if path.alt[i] == 'unknown' else path.alt[i]))
         n += 1
         yield path, (res, err)
+    if stack:
+        # the path cap was reached with prefixes still pending: never a silent pass
+        yield None, 'max-paths'
 
 
 def check(ex, path, cond, timeout_ms=None):
